@@ -110,7 +110,8 @@ def stream_encode_multipart(
                     and mimetypes.guess_type(filename)[0]
                     or "application/octet-stream"
                 )
-            headers = value.headers
+            # A plain file object has no headers.
+            headers = Headers(getattr(value, "headers", None))
             headers.update([("Content-Type", content_type)])
             if filename is None:
                 write_binary(encoder.send_event(Field(name=key, headers=headers)))
